@@ -44,7 +44,8 @@ ASSUMPTIONS = ["source texts are modules the running interpreter (3.12) parses; 
 BUDGET = {"quick": (4000, 75), "thorough": (200000, 840)}
 EXHAUSTIVE = {}
 REQUIRE = {"sources_checked": 300, "nodes_span_checked": 200000, "nodes_reparsed": 200000,
-           "containment_pairs": 200000, "variant_sources": 100, "generated_sources": 100}
+           "containment_pairs": 200000, "variant_sources": 100, "generated_sources": 100,
+           "corpus_sources": 100, "witness_sources": 50, "b_lossless": 300}
 TECHNIQUE = ("differential testing of the region annotator against the interpreter's parser positions, the "
              "tokenizer (what the leftover of a region is made of) and re-parsing of every region text; real-code "
              "corpus + validity-preserving layout mutations + random programs covering every ast node class")
@@ -502,11 +503,6 @@ class Judge:
             return "mid-" + _kind3(tt[i])
 
         def whole(i):
-            if tt[i] == tokmod.FSTRING_START:
-                return "FSTRING"
-            if tt[i] == tokmod.STRING:  # a whole literal is missing: which prefix spelling
-                pre = "".join(sorted(set(tstr[i][:tstr[i].index(tstr[i].lstrip("rRbBuU")[:1])].lower())))
-                return "STRING:" + (pre or "plain")
             return "STRING" if _kind3(tt[i]) == "STRING" else S.tok_feature(i)
         for rel, a, b in (("start-late", s0, r0), ("end-early", r1, s1)):
             if a < b:  # part of the construct is missing from the region
@@ -942,6 +938,8 @@ WITNESSES = [
     ('fstring-brace-escape-parens', 'x = f"{{({b})}}"\n'),
     ('return-annotation-lambda-async', 'async def case_(*λ) -> lambda *if_: [T for d in n if typed.format]:\n    if (e.format or q,)():\n        pass\n'),
     ('return-annotation-lambda', 'def g(*a) -> lambda *if_: [T for d in n if t.f]:\n    if (e.f or q,)():\n        pass\n'),
+    ('hash-string-before-parenthesized-call-argument', "f('#', (a + b)[c])\n"),
+    ('hash-string-before-parenthesized-subscript', "x = '#'[(a or b).x]\n"),
 ]
 
 
